@@ -48,7 +48,7 @@ class C10(Prop):
             '(its addSkip raises for binary reasons). thorough adds every sequence of length <= 4 over a '
             '14-event alphabet (2 ids, 2 routes, interim/final/file/tag events). non-trivial = at least 2 events with a test id and '
             '(a key with >= 2 lifetimes, or an open lifetime, or a multi-chunk attachment); distinct = distinct input S-expression')
-    assumptions = ['translator tie (harness/pystream.py): _update_case is symbolically executed, status/_ensure_key/stopTestRun and the StreamToDict/StreamToExtendedDecorator wrappers are matched statement by statement on every run; trusted: the translator, the record primitives set/got_timestamp/got_file/create and the reading of the recognised forms by TTV/Model/ConsumerSrc.lean',
+    assumptions = ['translator tie (harness/pystream.py): _update_case is symbolically executed, status/_ensure_key/stopTestRun and the StreamToDict/StreamToExtendedDecorator wrappers are matched statement by statement on every run; trusted: the translator, the record primitives set/got_timestamp/got_file/create and the reading of the recognised forms by TTV/Model/ConsumerSrc.lean; trusted normalisations before matching: early return = if/else, tests of parameters in `and` in any order, a popped / converted value bound to a local right before it is handed over, turned-around guards (`if test_id is not None: …`, `if test_status != "exists": …`), popitem() unpacked, chained to_test_case().run(...) - the order of calls (super, hook, decorated, on_test vs. pop) is asserted as written',
                    'content types are opaque tokens: parsing of mime strings (_make_content_type / email) belongs to C16',
 
                    'text-typed attachments carry bytes valid in their charset (StreamSummary formats failed tests\' details and would raise UnicodeDecodeError otherwise; noted in DESIGN section 0)',
